@@ -275,6 +275,17 @@ def r6_url_dispatch(chk):
             b = common.pfind([s for s in ast.walk(fn) if isinstance(s, ast.Assign)], pat)
             if b:
                 mapping[b['v']] = canon
+    # the local path handed to the file/zip readers is the URL path with its %-escapes decoded
+    conv = [k for k, v in mapping.items() if v == 'filePath']
+    imported = any(isinstance(n, ast.ImportFrom) and any(a.name == 'url2pathname' for a in n.names) and
+                   (n.module or '').split('.')[0] == 'urllib' for n in ast.walk(mod.tree))
+    chk.ob('C14.R6', 'path-decoded', bool(conv) and imported, where(mod, fn),
+           'the path of a file:// / zip:// / plain source must go through urllib\'s url2pathname (escapes such as '
+           '%20 decoded) before it is used as a directory or archive name')
+    if conv:
+        rd = [c for c in ast.walk(fn) if isinstance(c, ast.Call) and dotted_name(c.func) in ('FileReader', 'ZipReader')]
+        chk.ob('C14.R6', 'decoded-path-used', len(rd) >= 2 and all(c.args and norm(c.args[0]) == conv[0] for c in rd),
+               where(mod, fn), 'readers get %s' % [norm(c.args[0]) if c.args else None for c in rd])
     global norm
     _norm = norm
 
@@ -454,4 +465,10 @@ def r8_result_plumbing(chk):
     chk.ob('C14.R8', 'CallbackReader.getData/callback-args', ok, where(cb.mod, fn), '')
 
 
-RULES = [r1_file_reader, r2_variants, r3_index_first, r4_fallthrough, r5_recursion, r6_url_dispatch, r7_stateless_lookups, r8_result_plumbing]
+def r9_argument_agreement(chk):
+    rels = sorted(r for r in chk.model.modules if r.startswith(('pysmi/reader/',)))
+    common.argument_agreement(chk, 'C14.R9', rels, floor=15)
+
+
+
+RULES = [r1_file_reader, r2_variants, r3_index_first, r4_fallthrough, r5_recursion, r6_url_dispatch, r7_stateless_lookups, r8_result_plumbing, r9_argument_agreement]
